@@ -1015,6 +1015,7 @@ func init() {
 				return
 			}
 			st := be.Underlying().(*types.Struct)
+			copiesAll := map[*ssa.Function]bool{} // functions already shown to read every field of their source
 			for _, fn := range []string{"core/base.NewBlockErrorFromDeepCopy", "core/base.(*TokenResult).DeepCopyFrom"} {
 				f := c.P.Func(fn)
 				if f == nil {
@@ -1022,9 +1023,18 @@ func init() {
 					continue
 				}
 				src := f.Params[len(f.Params)-1]
+				all := true
 				for i := 0; i < st.NumFields(); i++ {
 					name := st.Field(i).Name()
 					isRead := func(x ssa.Instruction) bool {
+						// handing the source's block error to a function that copies every field counts as reading them all
+						if ci, ok := x.(ssa.CallInstruction); ok && copiesAll[ci.Common().StaticCallee()] {
+							for _, a := range ci.Common().Args {
+								if namedOf(a.Type()) == be && strings.HasPrefix(accessPath(a), accessPath(src)) {
+									return true
+								}
+							}
+						}
 						ld, ok := x.(*ssa.UnOp)
 						if !ok || ld.Op != token.MUL {
 							return false
@@ -1044,6 +1054,12 @@ func init() {
 						}
 					}
 					c.Check(ok, fnKey(f)+" / reads "+name, f.Pos(), "field %s of the source block error is read on every path to a return", name)
+					if !ok {
+						all = false
+					}
+				}
+				if all {
+					copiesAll[f] = true
 				}
 			}
 		},
